@@ -607,6 +607,101 @@ def unique_keys(R, P):
             "parse_object links every member it reads without looking its key up among the earlier ones, while cJSON_Compare (%s:%d) pairs members by key: {\"a\":1,\"a\":2} parses, and compares unequal to its own duplicate" % (CJ, keyed[0].node.get("loc", [0])[0]))
 
 
+def parser_round6(R, P):
+    """three facts about the reader that the writer relies on:
+    ESCAPE-AGREE/scan: the first pass of parse_string steps over the character after EVERY backslash (the writer emits `\\\\`
+    for a backslash: a value ending in one ends in `\\\\"`, and only an unconditional step keeps that quote the closing one);
+    NUMBER/buffer: print_number's scratch array holds the longest "%1.17g" text (sign, 17 digits, '.', "e-308", NUL = 25);
+    TREE-SHAPE/parser: parse_array and parse_object close the child list alike - `head->prev` is set to the last item read."""
+    from sa.cfg import edges
+    f = P.fn("parse_string")
+    if R.require(f is not None, "parse_string not found"):
+        dom = dominators(f)
+        loops = {}
+        preds = f.preds()
+        for b in dom:
+            for s_, _, _ in edges(f, b):
+                if s_ in dom.get(b, ()):
+                    body, st = {s_, b}, [b]
+                    while st:
+                        x = st.pop()
+                        if x == s_:
+                            continue
+                        for p_ in preds.get(x, []):
+                            if p_ not in body and p_ in dom:
+                                body.add(p_)
+                                st.append(p_)
+                    loops.setdefault(s_, set()).update(body)
+        # the scan loop: the first loop (lowest line) whose body tests a character against the backslash
+        cand = []
+        for h, body in loops.items():
+            for b in body:
+                B = f.blocks[b]
+                t = RU.cmp_norm(f, B.cond, True) if B.cond is not None else None
+                if t and t[1] == "==" and t[2] is not None and f.is_const(RU.uncast(f, t[2])) == 92:
+                    cand.append((B.term_loc or [10 ** 9])[0] if hasattr(B, "term_loc") else 0)
+                    incs = [e for e in f.all_events() if e.blk in body and e.kind == "access" and e.mode == "rw" and e.node["k"] == "var"]
+                    # increments of the scan pointer inside the backslash arm
+                    arm = [s_ for s_, c_, p_ in edges(f, b) if p_ is True]
+                    stepped = []
+                    for el_b in body:
+                        for el in f.blocks[el_b].elems:
+                            if el["k"] == "un" and el["op"] in ("post++", "pre++") and (f.d(el["a"][0]) or {}).get("k") == "var":
+                                ev = type("E", (), {"blk": el_b, "idx": 0, "seq": 0})()
+                                gs = RU.guards(f, ev, dom)
+                                under_bs = [1 for c_, p_, b_ in gs if f.d(c_) is f.d(B.cond) or c_ is B.cond]
+                                if under_bs:
+                                    # other guards between the backslash test and the step (the end-of-input check leaves by goto)
+                                    # (only a test of a CHARACTER makes the step depend on what is escaped; the end-of-input check reads none)
+                                    at_test = {id(f.d(c2)) for c2, p2, b2 in RU.guards(f, type("E", (), {"blk": b, "idx": 0, "seq": 0})(), dom)}
+                                    extra = [f.show(f.d(c_))[:50] for c_, p_, b_ in gs if b_ in body and b_ != b and b_ != h and not (f.d(c_) is f.d(B.cond)) and id(f.d(c_)) not in at_test
+                                             and any(x["k"] == "index" or (x["k"] == "un" and x["op"] == "deref") for x in f.walk(f.d(c_), follow_refs=True))]
+                                    stepped.append((f.d(el["a"][0])["n"], extra, el))
+                    break
+            else:
+                continue
+            break
+        else:
+            stepped = None
+        if R.require(stepped is not None, "parse_string: the backslash test of the first pass not found"):
+            ptr_steps = [s_ for s_ in stepped if "input_end" in s_[0] or True]
+            names = {}
+            for nme, extra, el in stepped:
+                names.setdefault(nme, []).append(extra)
+            # the scan pointer is the variable also stepped outside the arm; every stepped variable must have one unguarded step
+            bad = sorted(nme for nme, ex in names.items() if all(ex_ for ex_ in ex))
+            R.check(bool(names) and not bad, "ESCAPE-AGREE", "scan-steps-over-every-escaped-character", "%s in parse_string()" % CJ, "after a backslash the scan steps over the next character whatever it is",
+                    "in the first pass of parse_string the step over the character after a backslash is conditional for %s: `\\\\\\\\` in front of the closing quote swallows the quote, a value ending in a backslash (which the writer emits as `\\\\\\\\`) cannot be read back" % bad)
+    g = P.fn("print_number")
+    if R.require(g is not None, "print_number not found"):
+        sizes = []
+        for b in g.blocks.values():
+            for el in b.elems:
+                if el["k"] == "decl":
+                    for v in el["vars"]:
+                        t = g.unit.types[v["t"]] if "t" in v else {}
+                        if t.get("arr") is not None and (t.get("esz") or 1) == 1:
+                            sizes.append((v["n"], t["arr"]))
+        R.check(len(sizes) >= 1 and all(sz >= 25 for _, sz in sizes), "NUMBER", "scratch-buffer-holds-17-digits", "%s in print_number()" % CJ, "the scratch array holds sign + 17 digits + '.' + e-308 + NUL (sizes %s)" % sizes,
+                "print_number's scratch array %s is smaller than the 25 bytes the longest %%1.17g text needs (-1.2345678901234567e-300): such numbers cannot be serialised at all" % sizes)
+    shapes = {}
+    for nm in ("parse_array", "parse_object"):
+        h_ = P.fn(nm)
+        if not R.require(h_ is not None, "%s not found" % nm):
+            continue
+        st_ = set()
+        for e in h_.field_accesses(rec="cJSON", field="prev", modes=("w",)):
+            for b in h_.blocks.values():
+                for el in b.elems:
+                    if el["k"] == "bin" and el["op"] == "=" and h_.d(el["a"][0]) is e.node:
+                        st_.add((h_.show(e.node["a"][0]), h_.show(RU.uncast(h_, el["a"][1]))))
+        shapes[nm] = st_
+    if len(shapes) == 2:
+        R.check(shapes["parse_array"] == shapes["parse_object"] and ("head", "current_item") in shapes["parse_object"], "TREE-SHAPE", "parsers-close-the-list-alike", "%s in parse_object()" % CJ,
+                "both parsers store head->prev = current_item (prev stores: %s)" % sorted(shapes["parse_object"]),
+                "parse_array and parse_object maintain the child list's tail link differently (array: %s, object: %s): the list a parsed object hands to add_item_to_array has a stale tail, the next member added unlinks members 2..n" % (sorted(shapes["parse_array"]), sorted(shapes["parse_object"])))
+
+
 def analyse(ctx, replace=None, only=None):
     R = ctx.R
     units = [u for u in library_units(ctx.ex.repo) if "external" not in u or u.endswith("cJSON.c")]
@@ -623,6 +718,7 @@ def analyse(ctx, replace=None, only=None):
     hex4(R, P)
     field_agree(R, P)
     unique_keys(R, P)
+    parser_round6(R, P)
     number_alphabet(R, P)
     duplicate_links(R, P)
     key_compare(R, P)
